@@ -58,8 +58,8 @@ def share_rule(model, res):
             launcher = fn
             cfg = c.args[0] if c.args else None
             boundary = "direct call"
-        elif fn.endswith(".apply_async") or fn.endswith(".apply") or fn.endswith(".map") or fn.endswith(".starmap"):
-            tgt = c.args[0] if c.args else None
+        elif fn.split(".")[-1] in ("apply_async", "apply"):
+            tgt = c.args[0] if c.args else next((k.value for k in c.keywords if k.arg == "func"), None)
             if isinstance(tgt, ast.Name) and tgt.id in LAUNCHERS:
                 launcher = tgt.id
                 boundary = "pickled task arguments"
@@ -72,6 +72,14 @@ def share_rule(model, res):
                 cfg = argt.elts[0] if isinstance(argt, (ast.Tuple, ast.List)) and argt.elts else None
                 if cfg is None:
                     boundary = None
+        elif fn.split(".")[-1] in ("map", "map_async", "starmap", "starmap_async", "imap", "imap_unordered"):
+            tgt = c.args[0] if c.args else next((k.value for k in c.keywords if k.arg == "func"), None)
+            if isinstance(tgt, ast.Name) and tgt.id in LAUNCHERS:
+                launcher = tgt.id
+                cs = next((k.value for k in c.keywords if k.arg == "chunksize"), None)
+                one = isinstance(cs, ast.Constant) and cs.value == 1
+                boundary = "pickled task arguments" if one else "chunked task arguments"
+                cfg = c.args[1] if len(c.args) > 1 else None
         if launcher is None:
             continue
         n += 1
@@ -80,6 +88,10 @@ def share_rule(model, res):
         if boundary == "pickled task arguments":
             ok = True
             why = "configuration is an apply_async argument (pickled per task)"
+        elif boundary == "chunked task arguments":
+            ok = False
+            why = (f"`{fn}` sends the tasks to the workers in chunks (default chunksize > 1 for more than 4 x processes tasks); the "
+                   f"tasks of one chunk are unpickled together, so they share ONE configuration object and its market instances")
         elif boundary == "direct call" and cfg is not None:
             e = cfg
             if isinstance(e, ast.Name):
@@ -173,8 +185,9 @@ def wait_rule(model, res):
         while changed:
             changed = False
             for x in ast.walk(w):
-                if isinstance(x, ast.Assign) and len(x.targets) == 1 and isinstance(x.targets[0], ast.Name):
-                    nm, v = x.targets[0].id, x.value
+                if (isinstance(x, ast.Assign) and len(x.targets) == 1 and isinstance(x.targets[0], ast.Name)) or (
+                        isinstance(x, ast.AnnAssign) and isinstance(x.target, ast.Name) and x.value is not None):
+                    nm, v = (x.targets[0].id if isinstance(x, ast.Assign) else x.target.id), x.value
                     if (is_async(v) or (isinstance(v, ast.Name) and v.id in singles)) and nm not in singles:
                         singles.add(nm)
                         changed = True
@@ -246,6 +259,13 @@ def run(model, tier="quick"):
     res.floor("await_sites", wait_rule(model, res), 2)
     effects_check(res, model, "Broker.add_market", REF_ADD_MARKET,
                   "add_market rebinds the market's broker and action callback unconditionally", [], keep_raise_effects=True)
+    # the data frames ARE shared between the strategies of one process (by design, read-only): objects inside their cells
+    # must never be mutated, otherwise one strategy's fills deplete the book the next strategy sees
+    from ..rules.alias import cell_mutation_rule
+    res.rules.append("R-INPUT")
+    mutating, _nf = cell_mutation_rule(model, res)
+    res.ob("R-INPUT", f"shared market data: no in-place mutation reaches an object stored in a frame cell "
+                      f"(parameter-mutating functions: {sorted(mutating)})", "demeter/", ok=_nf == 0)
     res.assumptions = ["multiprocessing pickles apply_async arguments per task (also under the fork start method)",
                        "data frames are shared read-only (R-INPUT under C02)"]
     res.not_decided = ["OS-level fork semantics", "strategies that share state on purpose (class attributes of user code)"]
